@@ -67,8 +67,8 @@ CHECKS = {
     "C11": {
         "module": "Vanguard.Props.C11", "namespace": "Vanguard.C11", "streams": ["e2e", "codes", "percent", "timeout", "escape", "route", "envelope", "rest", "schema", "config"],
         "partial": "panic-freedom is proved for every outcome-reporting path and for every WriteHeader/Write call of every handler script "
-                   "(invariant Ready over whole runs, loops of both response writers included, which also terminate); for the request readers and "
-                   "responseWriter.Close it is checked by correspondence (panic=0 in every observation, watchdog); "
+                   "and the closing of the response writer when the handler returns (invariant Ready over whole runs, loops of both response writers "
+                   "included, which also terminate); for the request readers it is checked by correspondence (panic=0 in every observation, watchdog); "
                    "framing by a real HTTP stack is represented by httptest.ResponseRecorder only",
         "assumptions": E2E_ASSUME,
     },
